@@ -48,36 +48,44 @@ def build_model(law, variant, ns=3):
 def impl_eval(job):
     import numpy as np
     from bioscrape.simulator import ModelCSimInterface, SafeModelCSimInterface
-    law, variant = job["law"], job["variant"]
-    m = build_model(law, variant, ns=len(job["pts"][0]["x"]))
+    variant = job["variant"]
+    # "sweep": laws of one structure that differ in their parameter VALUES only are evaluated on ONE model / propensity /
+    # interface object, re-parameterised with set_params in between (a rate is a function of the values at call time)
+    sweep = job.get("sweep") or [{"law": job["law"], "pts": job["pts"]}]
+    law = sweep[0]["law"]
+    m = build_model(law, variant, ns=len(sweep[0]["pts"][0]["x"]))
     prop = m.get_propensities()[0]
-    params = m.get_parameter_values().copy()
     plain = ModelCSimInterface(m)
     safe = SafeModelCSimInterface(m)
     upd = m.py_get_update_array()[:, 0]
     bad = []
     n_eval = 0
-    for pt in job["pts"]:
-        x = np.array([f(v) for v in pt["x"]] + [1.0])
-        V = f(pt["V"])
-        exp = {k: f(pt[k]) for k in MODES}
-        supplied = all(x[i] >= -upd[i] for i in range(len(x)) if upd[i] < 0)
-        got = {
-            "bare": {"det": prop.py_get_propensity(x.copy(), params),
-                     "vol": prop.py_get_volume_propensity(x.copy(), params, V),
-                     "sto": prop.py_verif_get_stochastic_propensity(x.copy(), params),
-                     "stovol": prop.py_verif_get_stochastic_volume_propensity(x.copy(), params, V)},
-            "plain": {k: float(plain.py_verif_propensities(k, x.copy(), V)[0]) for k in MODES},
-            "safe": {k: float(safe.py_verif_propensities(k, x.copy(), V)[0]) for k in MODES},
-        }
-        for path, vals in got.items():
-            for mode, val in vals.items():
-                if path == "safe" and mode in ("sto", "stovol") and not supplied:
-                    # C01 is silent at under-supplied states on the safe path (C06 demands 0 there)
-                    continue
-                n_eval += 1
-                if not close(float(val), exp[mode]):
-                    bad.append({"path": path, "mode": mode, "got": float(val), "expected": exp[mode], "pt": pt})
+    for n_ent, ent in enumerate(sweep):
+      law = ent["law"]
+      if n_ent > 0:
+          m.set_params({"kk": f(law["k"])} if law["type"] == "massaction" else {"kk": f(law["k"]), "KK": f(law["K"]), "nn": f(law["n"])})
+      params = m.get_parameter_values().copy()
+      for pt in ent["pts"]:
+          x = np.array([f(v) for v in pt["x"]] + [1.0])
+          V = f(pt["V"])
+          exp = {k: f(pt[k]) for k in MODES}
+          supplied = all(x[i] >= -upd[i] for i in range(len(x)) if upd[i] < 0)
+          got = {
+              "bare": {"det": prop.py_get_propensity(x.copy(), params),
+                       "vol": prop.py_get_volume_propensity(x.copy(), params, V),
+                       "sto": prop.py_verif_get_stochastic_propensity(x.copy(), params),
+                       "stovol": prop.py_verif_get_stochastic_volume_propensity(x.copy(), params, V)},
+              "plain": {k: float(plain.py_verif_propensities(k, x.copy(), V)[0]) for k in MODES},
+              "safe": {k: float(safe.py_verif_propensities(k, x.copy(), V)[0]) for k in MODES},
+          }
+          for path, vals in got.items():
+              for mode, val in vals.items():
+                  if path == "safe" and mode in ("sto", "stovol") and not supplied:
+                      # C01 is silent at under-supplied states on the safe path (C06 demands 0 there)
+                      continue
+                  n_eval += 1
+                  if not close(float(val), exp[mode]):
+                      bad.append({"path": path, "mode": mode, "got": float(val), "expected": exp[mode], "pt": pt, "law": law, "swept": n_ent > 0})
     return {"n_eval": n_eval, "bad": bad[:50], "n_bad": len(bad), "type": type(prop).__name__}
 
 
@@ -126,6 +134,7 @@ def tlc_grid(tier):
 
 def run(tier):
     t0 = time.time()
+    quick_tier = tier == "quick"
     v = common.Verdict(PROP)
     recs = []
     states = trans = 0
@@ -149,12 +158,27 @@ def run(tier):
         for variant in (0, 1):
             for ch in pool.chunks(pts, 400):
                 jobs.append({"law": law, "variant": variant, "pts": ch})
+        # (parameter sweeps on one object are added below)
         # the same law with its reactants written in other orders (RateProbe.OrderInvariant): reversed and with the
         # copies of a repeated reactant apart (A+B+A); every order of the multiset in the thorough tier
         for j, wr in enumerate(written_orders(law, all_orders=(tier != "quick"))):
             n_orders += 1
             for ch in pool.chunks(pts, 400):
                 jobs.append({"law": dict(law, written=wr), "variant": j % 2, "pts": ch})
+    # parameter sweeps: laws with the same structure (type, reactants, regulator, proportional species) on one object, ordered
+    # so that neighbours share K and differ in n, then share n and differ in k
+    groups = {}
+    for k, (law, pts) in bylaw.items():
+        sk = json.dumps([law["type"], law["re"], law["s1"], law["d"], len(pts[0]["x"])])
+        groups.setdefault(sk, []).append((law, pts))
+    n_sweeps = 0
+    for sk, lst in sorted(groups.items()):
+        if len(lst) < 2:
+            continue
+        lst.sort(key=lambda lp: (f(lp[0]["K"]), f(lp[0]["k"]), f(lp[0]["n"])))
+        for ch in pool.chunks(lst, 12):
+            n_sweeps += 1
+            jobs.append({"law": ch[0][0], "variant": 1, "pts": [], "sweep": [{"law": l, "pts": p[:: 2 if quick_tier else 1]} for l, p in ch]})
     results = pool.run_jobs("c01", "impl_eval", jobs)
     n_eval = 0
     frac_exp = sum(1 for rec in recs if rec["law"]["n"][1] != 1)
@@ -166,14 +190,16 @@ def run(tier):
             continue
         n_eval += res["n_eval"]
         for b in res["bad"]:
-            v.violation(finding_key(job["law"], b),
-                        "%s via %s in %s mode: got %r, closed form %r at x=%s V=%s" % (
-                            job["law"]["type"], b["path"], b["mode"], b["got"], b["expected"], b["pt"]["x"], b["pt"]["V"]),
-                        {"law": job["law"], "variant": job["variant"], "bad": b})
+            lw = b.get("law") or job["law"]
+            v.violation(finding_key(lw, b) + (",after-set_params" if b.get("swept") else ""),
+                        "%s via %s in %s mode%s: got %r, closed form %r at x=%s V=%s (k=%s K=%s n=%s)" % (
+                            lw["type"], b["path"], b["mode"], " on an object re-parameterised with set_params" if b.get("swept") else "",
+                            b["got"], b["expected"], b["pt"]["x"], b["pt"]["V"], lw["k"], lw["K"], lw["n"]),
+                        {"law": lw, "variant": job["variant"], "bad": b})
     rc = v.finish()
     s = recs[len(recs) // 3]
     cov = {"states": states, "transitions": trans, "traces_validated_against_impl": len(recs),
-           "samples": [s], "exhaustive": True, "grid_points": len(recs), "laws": len(bylaw), "laws_in_other_written_orders": n_orders,
+           "samples": [s], "exhaustive": True, "grid_points": len(recs), "laws": len(bylaw), "laws_in_other_written_orders": n_orders, "parameter_sweeps_on_one_object": n_sweeps,
            "implementation_evaluations": n_eval, "points_with_fractional_exponent": frac_exp,
            "access_paths": ["bare propensity object", "plain interface", "safe interface"], "modes": list(MODES),
            "checker_cmd": " ; ".join(cmds)}
